@@ -131,6 +131,9 @@ func findQueueHelpers(c *core.Ctx, mqType types.Type) *queueHelpers {
 			if inChan && outChan {
 				set(&q.emit)
 			}
+		case len(fn.Params) == 1 && res.Len() == 0:
+			// removing the first node without handing anything back (nobody used the result)
+			set(&q.deq)
 		case len(fn.Params) == 1 && res.Len() == 1:
 			if _, isPtr := res.At(0).Type().(*types.Pointer); isPtr {
 				set(&q.deq)
@@ -955,9 +958,15 @@ func queueSummaries(c *core.Ctx, q *queueHelpers) {
 			if nPut > 1 {
 				ok, why = false, fmt.Sprintf("the removed node is handed back to the pool %d times: the pool would hand it out twice and two queue positions would share one node", nPut)
 			}
-			r := p.Results[0]
-			if ok && (!advHead || clrTail != (wasTail > 0) || wasTail == 0 || !(r.Op == "load" && r.Args[0].Op == "faddr" && r.Args[0].Aux == q.fValue && ir.Same(r.Args[0].Args[0], oldHead))) {
-				ok, why = false, fmt.Sprintf("expected head := head.next, tail := nil iff the removed node was the tail, result the removed node's value (advance %v, clear-tail %v with was-tail %d, result %s)", advHead, clrTail, wasTail, short(r))
+			// the result, when deq has one, is the removed node's value
+			resOK, rs := true, "none"
+			if len(p.Results) > 0 {
+				r := p.Results[0]
+				rs = short(r)
+				resOK = r.Op == "load" && r.Args[0].Op == "faddr" && r.Args[0].Aux == q.fValue && ir.Same(r.Args[0].Args[0], oldHead)
+			}
+			if ok && (!advHead || clrTail != (wasTail > 0) || wasTail == 0 || !resOK) {
+				ok, why = false, fmt.Sprintf("expected head := head.next, tail := nil iff the removed node was the tail, result the removed node's value (advance %v, clear-tail %v with was-tail %d, result %s)", advHead, clrTail, wasTail, rs)
 			}
 		}
 		c.Check(ok, "queue-discipline", "pipe."+fn.Name(), fn.Pos(), "remove at head", "%s", why)
